@@ -308,8 +308,11 @@ def op_write_read(ctx, st, op, prop, info):
             ctx.probe("members_out_of_step_at_write")       # the caller updated one member alone: not judged
         if judge and in_domain and not out_of_step:
             judge_roundtrip(ctx, st, which, obj, R, data, op, fs)
-        # continue the history on the read-back object; the written one becomes its shadow
-        st.objs[which] = R
+        # continue the history on the read-back object; the written one becomes its shadow.  (A write outside the
+        # property's domain - fewer than two accepted windows somewhere - says nothing about what is read back: the
+        # history then continues on the object that was written.)
+        if in_domain:
+            st.objs[which] = R
         if judge and in_domain and not out_of_step:
             if getattr(st, "shadow", None) is None:
                 sh = M.State()
